@@ -256,6 +256,29 @@ def case_history(ctx, rng, idx):
         ctx.sig(len(st), L > 8, fdk, Ts, int(math.log10(max(k, 1))), n, hist[-1])
         k += n
         hist.append("gen%d" % n)
+    if idx % 4 == 0:
+        # a "similar" generator (same configuration, fresh phases from the global
+        # numpy stream) obeys the same law: two chunks equal one request of a
+        # generator built directly with the same configuration and stream state
+        sd = int(rng.integers(0, 2 ** 31))
+        np.random.seed(sd)
+        okc, g2 = ctx.call("chunking-independent", g.get_similar_fading_generator,
+                           cls="similar:raised", detail=tag)
+        if okc:
+            np.random.seed(sd)
+            g3 = FG.JakesSampleGenerator(Fd, Ts, L, shape=shape)
+            n1, n2 = int(rng.integers(1, 200)), int(rng.integers(1, 200))
+            g2.generate_more_samples(n1)
+            a = np.array(g2.get_samples(), copy=True)
+            g2.generate_more_samples(n2)
+            b = np.asarray(g2.get_samples())
+            g3.generate_more_samples(n1 + n2)
+            c = np.asarray(g3.get_samples())
+            tol = math.sqrt(L) * (2 * math.pi * Fd * (n1 + n2 + 1) * Ts * EPS * 80 + 1e-12)
+            ab = np.concatenate([a, b], axis=-1)
+            ctx.ev("chunking-independent", ab.shape == c.shape and
+                   float(np.max(np.abs(ab - c))) <= tol, cls="similar-generator",
+                   detail={**tag, "n1": n1, "n2": n2, "shapes": [ab.shape, c.shape]})
     ctx.sample("history", {**tag, "history": hist[:12], "final_position": k})
 
 
